@@ -59,10 +59,10 @@ type meta struct {
 }
 
 type ran struct {
-	s   *scen
-	o   outcome
-	v   *verdict
-	m   meta
+	s *scen
+	o outcome
+	v *verdict
+	m meta
 }
 
 // execute builds and drives one scenario on the calling goroutine and judges it right there.
